@@ -33,6 +33,8 @@ import (
 //	'c' Close                               'x' cancel the RPC context (client only)
 //	'f' RawFlush                            'q' wait until the process is quiescent
 //	'S' send Size messages of 10 bytes
+//	'P' Size goroutines send 4 messages each, concurrently; wait for all
+//	'Z' start a goroutine that issues CloseSend concurrently with what follows
 type Act struct {
 	Op   byte
 	Size int
@@ -89,6 +91,7 @@ type Event struct {
 	MsgErr    error       // payload validation error of a received message
 	Size      int
 	Seq       uint32 // for sends: sequence number submitted
+	Sender    uint16 // for sends: sending goroutine
 }
 
 // Cat is the error category of the event.
@@ -161,6 +164,11 @@ type Config struct {
 
 // Exec is a running program.
 type Exec struct {
+	// AfterSend, if set, is called right after every MsgSend returned.
+	AfterSend func(l *RPCLog, side byte, msg []byte, err error)
+	// OnQ, if set, is called by the 'q' action once the process is quiescent.
+	OnQ func(l *RPCLog, side byte)
+
 	Rig   *rig.Rig
 	Cfg   Config
 	mu    sync.Mutex
@@ -231,7 +239,7 @@ func (x *Exec) handle(stream drpc.Stream, rpc string) error {
 	}
 	l.mu.Unlock()
 	census.Bump()
-	runActs(l, 's', stream, l.Script.Handler, nil)
+	x.runActs(l, 's', stream, l.Script.Handler, nil)
 	ret := l.Script.Ret.Error()
 	l.mu.Lock()
 	l.HandlerDone = true
@@ -241,7 +249,7 @@ func (x *Exec) handle(stream drpc.Stream, rpc string) error {
 	return ret
 }
 
-func runActs(l *RPCLog, side byte, st drpc.Stream, acts []Act, cancel context.CancelFunc) {
+func (x *Exec) runActs(l *RPCLog, side byte, st drpc.Stream, acts []Act, cancel context.CancelFunc) {
 	dir := uint8(0)
 	if side == 's' {
 		dir = 1
@@ -251,8 +259,14 @@ func runActs(l *RPCLog, side byte, st drpc.Stream, acts []Act, cancel context.Ca
 		m := payload.Make(l.Script.Tag, dir, 0, seq, size)
 		ev := l.begin(side, "send", size, seq)
 		seq++
-		l.end(ev, st.MsgSend(&m, payload.Enc{}))
+		err := st.MsgSend(&m, payload.Enc{})
+		l.end(ev, err)
+		if x.AfterSend != nil {
+			x.AfterSend(l, side, m, err)
+		}
 	}
+	var bg sync.WaitGroup
+	defer bg.Wait()
 	recv := func() error {
 		var out []byte
 		ev := l.begin(side, "recv", 0, 0)
@@ -295,6 +309,42 @@ func runActs(l *RPCLog, side byte, st drpc.Stream, acts []Act, cancel context.Ca
 			}
 		case 'q':
 			census.Quiesce(rig.Watchdog)
+			if x.OnQ != nil {
+				x.OnQ(l, side)
+			}
+		case 'P':
+			var wg sync.WaitGroup
+			for g := 1; g <= a.Size; g++ {
+				g := g
+				wg.Add(1)
+				go func() {
+					defer wg.Done()
+					for k := 0; k < 4; k++ {
+						size := int(payload.Hash(l.Script.Tag, uint64(g), uint64(k)) % 200)
+						if k == 2 {
+							size *= 40
+						}
+						m := payload.Make(l.Script.Tag, dir, uint16(g), uint32(k), size)
+						ev := l.begin(side, "send", size, uint32(k))
+						l.mu.Lock()
+						ev.Sender = uint16(g)
+						l.mu.Unlock()
+						err := st.MsgSend(&m, payload.Enc{})
+						l.end(ev, err)
+						if x.AfterSend != nil {
+							x.AfterSend(l, side, m, err)
+						}
+					}
+				}()
+			}
+			wg.Wait()
+		case 'Z':
+			bg.Add(1)
+			go func() {
+				defer bg.Done()
+				ev := l.begin(side, "closesend", 0, 0)
+				l.end(ev, st.CloseSend())
+			}()
 		}
 	}
 }
@@ -338,7 +388,7 @@ func (x *Exec) RunClient(s *Script) {
 	l.mu.Lock()
 	l.Stream = st
 	l.mu.Unlock()
-	runActs(l, 'c', st, s.Client, cancel)
+	x.runActs(l, 'c', st, s.Client, cancel)
 	if !s.NoClose {
 		ev := l.begin('c', "close", 0, 0)
 		l.end(ev, st.Close())
@@ -429,6 +479,12 @@ func Validate(s *Script) bool {
 			me.pc++
 		case 'S':
 			me.sent += a.Size
+			me.pc++
+		case 'P':
+			me.sent += 4 * a.Size
+			me.pc++
+		case 'Z':
+			me.half = true
 			me.pc++
 		case 'r', 'R':
 			if peer.sent > me.got {
